@@ -179,6 +179,12 @@ func computeYear(lunar *Lunar) {
 			gExact++
 			zExact++
 		}
+	} else {
+		//阴历年超前于阳历年（如公元15年、18年的年末），下一个立春还没到
+		g--
+		z--
+		gExact--
+		zExact--
 	}
 
 	if g < 0 {
